@@ -408,7 +408,9 @@ fn canon_key(st: &SysState) -> String {
             format!("UN{:?}", v)
         }
         Network::Ordered(m) => {
-            let v: Vec<_> = m.iter().map(|((s, d), q)| (usize::from(*s), usize::from(*d), q.iter().cloned().collect::<Vec<u8>>())).collect();
+            // SEMANTIC content: the queued messages per directed flow; a flow without messages is no content at all (it
+            // cannot influence any future behaviour), so `{(0,1): []}` and `{}` are the same network
+            let v: Vec<_> = m.iter().filter(|(_, q)| !q.is_empty()).map(|((s, d), q)| (usize::from(*s), usize::from(*d), q.iter().cloned().collect::<Vec<u8>>())).collect();
             format!("OR{:?}", v)
         }
     };
